@@ -719,6 +719,37 @@ func (fr *Frame) loopInvariants(li *loopInfo) []*Clause {
 	return out
 }
 
+// loopWriteRows: the backing arrays named by the loop's 'writes' clauses (nil when there is none).
+func (fr *Frame) loopWriteRows(st *State, li *loopInfo) []*Term {
+	ct := fr.contract
+	if ct == nil {
+		ct = fr.ex.W.contracts[fr.key()]
+	}
+	if ct == nil {
+		return nil
+	}
+	var rows []*Term
+	for _, cl := range ct.Invs {
+		if cl.Loop != li.ord || cl.Kind != "writes" {
+			continue
+		}
+		for _, e := range strings.Split(cl.Text, ",") {
+			e = strings.TrimSpace(e)
+			if e == "" {
+				continue
+			}
+			ctx := fr.evalCtx(st, li.header)
+			cv, err := ctx.evalText(e)
+			if err != nil || cv.t == nil || cv.t.sort != Sort("Slice") {
+				fr.ex.W.contractError(cl, fmtErrorf("loop writes: %s is not a slice here", e))
+				return nil
+			}
+			rows = append(rows, fr.ex.f.Acc("Slice", "ref", cv.t))
+		}
+	}
+	return rows
+}
+
 func (fr *Frame) loopSteps(li *loopInfo) []*Clause {
 	var out []*Clause
 	ct := fr.contract
@@ -1079,7 +1110,30 @@ func (fr *Frame) loopHeader(st *State, li *loopInfo, phis []*ssa.Phi, entryVals 
 				continue
 			}
 		}
+		// 'loop <n> writes s, t': the loop writes slice elements only in the backing arrays of the named
+		// (loop-invariant) slices. The element heaps are then havocked at those arrays only; that nothing
+		// else was written is proved on every back edge (loop-frame obligation).
+		rows := fr.loopWriteRows(st, li)
+		before := map[string]*Term{}
+		if rows != nil {
+			for _, c := range comps {
+				if s, ok := ex.compSort[c]; ok && strings.HasPrefix(c, "E.") {
+					if ks, _ := s.ArrayParts(); ks == SInt {
+						before[c] = ex.comp(st, c, s)
+					}
+				}
+			}
+		}
 		ex.havocComps(st, comps)
+		for c, old := range before {
+			hv := ex.comp(st, c, ex.compSort[c])
+			nv := old
+			for _, r := range rows {
+				nv = f.Store(nv, r, f.Select(hv, r))
+			}
+			ex.setComp(st, c, nv)
+		}
+		li.writeRows = rows
 		nf := f.Fresh("frontier", SInt)
 		ex.assume(st, f.Ge(nf, st.frontier))
 		st.frontier = nf
@@ -1139,6 +1193,34 @@ func (fr *Frame) loopBackEdge(st *State, li *loopInfo, from *ssa.BasicBlock) {
 	}
 	invs := fr.loopInvariants(li)
 	steps := fr.loopSteps(li)
+	if li.writeRows != nil && li.head != nil {
+		f := ex.f
+		var names []string
+		for n := range ex.compSort {
+			names = append(names, n)
+		}
+		sort.Strings(names)
+		for _, c := range names {
+			s := ex.compSort[c]
+			if !strings.HasPrefix(c, "E.") {
+				continue
+			}
+			if ks, _ := s.ArrayParts(); ks != SInt {
+				continue
+			}
+			h0, h1 := ex.comp(li.head, c, s), ex.comp(st, c, s)
+			if h0 == h1 {
+				continue
+			}
+			r := f.Fresh("loopframe.r", SInt)
+			pre := f.And(f.Gt(r, f.Int(0)), f.Lt(r, li.head.frontier))
+			for _, w := range li.writeRows {
+				pre = f.And(pre, f.Neq(r, w))
+			}
+			ex.addOblig(&Obligation{Name: fmt.Sprintf("%s/loop-frame@loop%d:%s:from%d", fr.key(), li.ord, c, fr.backEdgeOrd(li, from)), Kind: "loop-frame", Fn: fr.rootKey(),
+				Goal: f.Implies(pre, f.Eq(f.Select(h1, r), f.Select(h0, r))), PC: st.pc})
+		}
+	}
 	if len(invs) == 0 && len(steps) == 0 {
 		return
 	}
